@@ -271,6 +271,11 @@ def run(ctx, widen=False):
     pipeline.run_stream(ctx, __name__, range(base + 90000, base + 90000 + n // 2),
                         extra={"p_rep": 0.6, "rep_kinds": ["closed_form", "closed_form", "custom", "arithmetic"], "p_placeholder_clash": 0.5,
                                "p_deep_link": 0.5, "symbolic_rep": 0.9})
+    # third family: one source forwarded to several parameters nested inside the same child, whose own port-size symbols are often
+    # spelled like that source and are used in its resources (names an ancestor forwards THROUGH a routine vs the routine's own names)
+    pipeline.run_stream(ctx, __name__, range(base + 130000, base + 130000 + n // 2),
+                        extra={"p_multi_deep_link": 0.9, "p_port_sym_in_resource": 0.9, "p_deep_link": 0.5, "max_depth": 3,
+                               "size_thresholds": (0.2, 0.75, 0.85)})
     corpus(ctx)
     corpus_f18(ctx)
 
